@@ -16,6 +16,13 @@ WHAT = {
 }
 
 
+# fields that legitimately never appear in the serialized form of the object states the harness can build
+DORMANT_OK = {
+    "QXmppMessage.setE2eeFallbackBody": "only consulted by the encrypted send path, which replaces the body; never part of toXml() output",
+    "QXmppMixIq.setNodes": "deprecated alias kept for source compatibility; superseded by setSubscriptions()",
+}
+
+
 def ns_map():
     """tag -> most frequent namespace in the corpus (nested serializers rely on their parent's default namespace)"""
     import collections
@@ -87,6 +94,12 @@ def fields_layer(V, tier):
                 V.violation("setter-built %s %s" % (k, kind), "%s: a value of the field's type set with the setter is not what the getter reports after serialize -> parse (state %s)" % (k, r["state"]),
                             {"class": r["cls"], "setter": r["field"], "state": r["state"], "value_set": f["value"], "value_after_roundtrip": f["got"], "xml": f["xml"]})
     st["dormant"] = sorted(st["fields"] - st["live_fields"])
+    for k in st["dormant"]:
+        # a field with a setter and a getter that survives serialize -> parse in no object state at all is lost outright
+        if k not in DORMANT_OK and not any(c["field"] == k for _, crashes in out for c in crashes):
+            probe = next((r for recs, _ in out for r in recs if "%s.%s" % (r["cls"], r["field"]) == k), {})
+            V.violation("setter-built %s never-survives" % k, "%s: not even a benign value set with the setter is reported by the getter after serialize -> parse, in any object state" % k,
+                        {"field": k, "probe_xml": probe.get("probe_xml"), "getter_after_roundtrip": probe.get("probe_got"), "states_tried": sorted(set(r["state"] for recs, _ in out for r in recs if "%s.%s" % (r["cls"], r["field"]) == k))})
     return st
 
 
